@@ -4,6 +4,10 @@ from remerkleable.core import Path
 
 THEOREMS = ["C08_static_eq_spec", "C08_invalid_key_rejected", "C08_path", "C08_to_gindex", "C08_concat_paths", "C08_node_step", "C08_node", "C08_mixin_node"]
 PARTIAL = ["static index = spec index, rejection of invalid keys, bit-level concat law and node addressing on values (C08_node: any representation, whole paths through composite children, mix-in nodes) are proved; chunk addressing of packed elements / bits is proved inside the C02 serialisation theorem (packed_elems, bits_core) rather than as a C08 statement; C08_dynamic (gindex(view) / navigate_view of the Python objects agree with the static index) is covered by the correspondence (node_at_gindex observable, model-free dynamic oracle)"]
+# second tie: the generalized-index arithmetic of remerkleable/tree.py is TRANSLATED on every run (harness/translate_tree.py,
+# fail-closed) and the generated definitions are proved equal to the model's (coq/trans/TreeEq.v)
+TRANSLATED = {"translator": "translate_tree", "source": "remerkleable/tree.py", "gen": "TreeGen.v", "proofs": "TreeEq.v",
+              "theorems": ["eq_get_depth", "eq_to_gindex", "eq_get_anchor_gindex", "eq_concat_gindices"]}
 COQ_IMPORTS = ["RM.Types", "RM.ModelPaths", "RMR.RunC08"]
 COQ_FN = "RunC08.run"
 COQ_CASE_TY = "RunC08.case"
